@@ -228,13 +228,13 @@ def main():
         print("unknown property %s" % pid)
         sys.exit(2)
     t0 = time.time()
-    rundir = os.path.join(BUILD, "run", pid)
+    rundir = os.path.join(BUILD, "run", pid if os.path.realpath(REPO) == "/repo" else pid + "_scratch_%d" % os.getpid())
     os.makedirs(rundir, exist_ok=True)
     entry = checks.CHECKS[pid]
     results = [run_harness(pid, spec, tier, rundir) for spec in entry["harnesses"] if tier in spec.get("tiers", ("quick", "thorough"))]
     open_keys, _fixed = load_known()
 
-    repdir = os.path.join(VERIF, "replays", pid)
+    repdir = os.path.join(VERIF, "replays", pid) if os.path.realpath(REPO) == "/repo" else os.path.join(BUILD, "scratch_replays", pid)
     shutil.rmtree(repdir, ignore_errors=True)
     known_lines, viol_lines, herrs = [], [], []
     for res in results:
@@ -282,10 +282,12 @@ def main():
         "wall_s": round(time.time() - t0, 2),
         "violations": len(viol_lines),
     }
-    os.makedirs(os.path.join(VERIF, "evidence"), exist_ok=True)
-    tmp = os.path.join(VERIF, "evidence", pid + ".json.tmp")
+    # evidence of the registered checks is about /repo itself; runs against a scratch tree (VERIF_REPO) go elsewhere
+    evdir = os.path.join(VERIF, "evidence") if os.path.realpath(REPO) == "/repo" else os.path.join(BUILD, "scratch_evidence")
+    os.makedirs(evdir, exist_ok=True)
+    tmp = os.path.join(evdir, pid + ".json.tmp")
     json.dump(ev, open(tmp, "w"), indent=1)
-    os.rename(tmp, os.path.join(VERIF, "evidence", pid + ".json"))
+    os.rename(tmp, os.path.join(evdir, pid + ".json"))
 
     for l in sorted(set(known_lines)):
         print(l)
